@@ -812,8 +812,23 @@ func c14First(c *Ctx) {
 	// failures return before the database is loaded
 	var loads []*ssa.Call
 	ssau.ForEachInstr(run, false, func(in ssa.Instruction) {
-		if call, ok := in.(*ssa.Call); ok && strings.HasSuffix(ssau.CallName(call), "LoadDatabaseWithFallback") {
+		call, ok := in.(*ssa.Call)
+		if !ok {
+			return
+		}
+		if strings.HasSuffix(ssau.CallName(call), "LoadDatabaseWithFallback") {
 			loads = append(loads, call)
+			return
+		}
+		// or a step of the command that does the loading
+		if g := call.Common().StaticCallee(); g != nil && g.Blocks != nil && g.Pkg == run.Pkg {
+			for _, h := range withSteps(c, g, 1) {
+				for _, in2 := range callsMatching(h, false, func(n string) bool { return strings.HasSuffix(n, "LoadDatabaseWithFallback") }) {
+					_ = in2
+					loads = append(loads, call)
+					return
+				}
+			}
 		}
 	})
 	r.Floor("O-4", "database load calls in the search command", len(loads), 1)
@@ -843,7 +858,7 @@ func c14EngineLimit(c *Ctx, tr *origin.Tracer, engine *ssa.Call, vlName string) 
 		r.Unknown("O-4", fk+"#engine-limit", c.P.Pos(engine.Pos()), "SearchOptions has no field Limit")
 		return
 	}
-	full := &origin.Tracer{FieldStoresIn: c.P.RepoFuncs(), Sx: symx.New(c.P.IsRepoFunc)}
+	full := &origin.Tracer{CG: c.P.CallGraph(), FieldStoresIn: c.P.RepoFuncs(), Sx: symx.New(c.P.IsRepoFunc)}
 	rs := full.FieldRoots(opt, fi)
 	hasValidated, hasRaw := false, false
 	var ds []string
